@@ -1,15 +1,16 @@
 import Skc.Gen.Loops
 import Skc.Model.Greedy
+import Skc.Lemmas.Where
 
 /-! L1 layer for route T2: the definitions that `harness/translate_loops.py` regenerates from /repo's
     imperative kernels on every run (`Skc/Gen/Loops.lean`) are proved equal to the hand-written models
-    that the property theorems are about.  Core Lean only. -/
+    that the property theorems are about. -/
 namespace Skc
 open GenL
 
 /-- one iteration of the scan in `where`, by cases on the value read and on whether a run is open -/
-theorem where_body0_eq (i : Nat) (val : Bool) (intervals : List (Nat × Nat)) (start e : Option Nat) :
-    where_body0 i val intervals start e = some (match val, start with
+theorem where_body0_eq (ind : List Bool) (i : Nat) (val : Bool) (intervals : List (Nat × Nat)) (start e : Option Nat) :
+    where_body0 ind i val intervals start e = some (match val, start with
       | true, none => (intervals, some i, e)
       | true, some s => (intervals, some s, e)
       | false, some s => (intervals ++ [(s, i)], none, none)
@@ -19,8 +20,8 @@ theorem where_body0_eq (i : Nat) (val : Bool) (intervals : List (Nat × Nat)) (s
 /-- the loop of `where` from position `i` with the closed runs `acc` and the open run `start`: it never
     fails, and what it leaves (closed runs + the still open run, closed at the end of the input) is what
     the model's scan yields -/
-theorem where_loop0_spec : ∀ (l : List Bool) (i : Nat) (acc : List (Nat × Nat)) (start e : Option Nat),
-    ∃ acc' start' e', where_loop0 l i (acc, start, e) = some (acc', start', e') ∧
+theorem where_loop0_spec (ind : List Bool) : ∀ (l : List Bool) (i : Nat) (acc : List (Nat × Nat)) (start e : Option Nat),
+    ∃ acc' start' e', where_loop0 ind l i (acc, start, e) = some (acc', start', e') ∧
       acc' ++ (match start' with | some s => [(s, i + l.length)] | none => []) = acc ++ whereRunsAux l i start
   | [], i, acc, start, e => by
     refine ⟨acc, start, e, rfl, ?_⟩
@@ -28,26 +29,26 @@ theorem where_loop0_spec : ∀ (l : List Bool) (i : Nat) (acc : List (Nat × Nat
   | val :: rest, i, acc, start, e => by
     simp only [where_loop0, where_body0_eq, Option.bind_some]
     cases val <;> cases start
-    · obtain ⟨a, s, e', h1, h2⟩ := where_loop0_spec rest (i + 1) acc none e
+    · obtain ⟨a, s, e', h1, h2⟩ := where_loop0_spec ind rest (i + 1) acc none e
       refine ⟨a, s, e', h1, ?_⟩
       rw [whereRunsAux, ← h2]
       simp only [List.length_cons]
       have : i + 1 + rest.length = i + (rest.length + 1) := by omega
       rw [this]
     · rename_i s0
-      obtain ⟨a, s, e', h1, h2⟩ := where_loop0_spec rest (i + 1) (acc ++ [(s0, i)]) none none
+      obtain ⟨a, s, e', h1, h2⟩ := where_loop0_spec ind rest (i + 1) (acc ++ [(s0, i)]) none none
       refine ⟨a, s, e', h1, ?_⟩
       rw [whereRunsAux, List.length_cons]
       have : i + 1 + rest.length = i + (rest.length + 1) := by omega
       rw [← this, h2, List.append_assoc]
       rfl
-    · obtain ⟨a, s, e', h1, h2⟩ := where_loop0_spec rest (i + 1) acc (some i) e
+    · obtain ⟨a, s, e', h1, h2⟩ := where_loop0_spec ind rest (i + 1) acc (some i) e
       refine ⟨a, s, e', h1, ?_⟩
       rw [whereRunsAux, List.length_cons]
       have : i + 1 + rest.length = i + (rest.length + 1) := by omega
       rw [← this, h2]
     · rename_i s0
-      obtain ⟨a, s, e', h1, h2⟩ := where_loop0_spec rest (i + 1) acc (some s0) e
+      obtain ⟨a, s, e', h1, h2⟩ := where_loop0_spec ind rest (i + 1) acc (some s0) e
       refine ⟨a, s, e', h1, ?_⟩
       rw [whereRunsAux, List.length_cons]
       have : i + 1 + rest.length = i + (rest.length + 1) := by omega
@@ -56,12 +57,77 @@ theorem where_loop0_spec : ∀ (l : List Bool) (i : Nat) (acc : List (Nat × Nat
 /-- **route T2, `where`**: the function regenerated from `skchange/utils/numba/general.py::where` never
     fails and returns exactly the model's maximal runs, for every boolean input of every length -/
 theorem gen_where_eq_model (indicator : List Bool) : where_ indicator = some (whereRuns indicator) := by
-  obtain ⟨a, s, e', h1, h2⟩ := where_loop0_spec indicator 0 [] none none
+  obtain ⟨a, s, e', h1, h2⟩ := where_loop0_spec indicator indicator 0 [] none none
   simp only [where_, h1, whereRuns]
   cases s
   · simp at h2
     simp [h2]
   · simp at h2
     simp [h2]
+
+
+/-! ### `get_moving_window_changepoints` -/
+section mw
+variable {α : Type} [LT α] [DecidableLT α]
+
+theorem pyArgmaxFrom_eq (a : Nat → α) : ∀ (len i b : Nat), pyArgmaxFrom a i len b = argmaxRange a i len b
+  | 0, _, _ => rfl
+  | len + 1, i, b => by
+    simp only [pyArgmaxFrom, argmaxRange, pyArgmaxFrom_eq a len]
+
+theorem argmaxRange_ge (a : Nat → α) : ∀ (len i b : Nat), min b i ≤ argmaxRange a i len b
+  | 0, i, b => by simp only [argmaxRange]; omega
+  | len + 1, i, b => by
+    simp only [argmaxRange]
+    split
+    · have := argmaxRange_ge a len (i + 1) i; omega
+    · have := argmaxRange_ge a len (i + 1) b; omega
+
+/-- one iteration of the loop over the detection intervals, for a non-empty interval inside the array -/
+theorem mw_changepoints_body0_eq (scores : Nat → α) (n : Nat) (thr : α) (mdi : Nat) (r : Nat × Nat)
+    (dets : List (Nat × Nat)) (cps : List Nat) (h1 : r.1 < r.2) (h2 : r.2 ≤ n) :
+    mw_changepoints_body0 scores n thr mdi r dets cps =
+      some (dets, if mdi ≤ r.2 - r.1 then cps ++ [argmaxRange scores (r.1 + 1) (r.2 - r.1 - 1) r.1] else cps) := by
+  have hsub : pySub r.2 r.1 = some (r.2 - r.1) := by simp [pySub, Nat.le_of_lt h1]
+  have hmin : min r.2 n = r.2 := Nat.min_eq_left h2
+  have hge := argmaxRange_ge scores (r.2 - r.1 - 1) (r.1 + 1) r.1
+  have harg : pyArgmaxSlice scores n r.1 r.2 = some (argmaxRange scores (r.1 + 1) (r.2 - r.1 - 1) r.1 - r.1) := by
+    simp [pyArgmaxSlice, hmin, h1, pyArgmaxFrom_eq]
+  have hback : argmaxRange scores (r.1 + 1) (r.2 - r.1 - 1) r.1 - r.1 + r.1 = argmaxRange scores (r.1 + 1) (r.2 - r.1 - 1) r.1 := by
+    omega
+  by_cases hc : mdi ≤ r.2 - r.1
+  · simp [mw_changepoints_body0, hsub, harg, hc, hback]
+  · simp [mw_changepoints_body0, hsub, hc]
+
+theorem mw_changepoints_loop0_eq (scores : Nat → α) (n : Nat) (thr : α) (mdi : Nat) :
+    ∀ (runs : List (Nat × Nat)) (dets : List (Nat × Nat)) (cps : List Nat), (∀ r ∈ runs, r.1 < r.2 ∧ r.2 ≤ n) →
+      mw_changepoints_loop0 scores n thr mdi runs (dets, cps) =
+        some (dets, cps ++ ((runs.filter (fun r => decide (mdi ≤ r.2 - r.1))).map
+          (fun r => argmaxRange scores (r.1 + 1) (r.2 - r.1 - 1) r.1)))
+  | [], dets, cps, _ => by simp [mw_changepoints_loop0]
+  | r :: rest, dets, cps, h => by
+    obtain ⟨h1, h2⟩ := h r (by simp)
+    have hrest : ∀ r' ∈ rest, r'.1 < r'.2 ∧ r'.2 ≤ n := fun r' hr' => h r' (by simp [hr'])
+    simp only [mw_changepoints_loop0, mw_changepoints_body0_eq scores n thr mdi r dets cps h1 h2, Option.bind_some]
+    rw [mw_changepoints_loop0_eq scores n thr mdi rest dets _ hrest]
+    by_cases hc : mdi ≤ r.2 - r.1
+    · simp [hc]
+    · simp [hc]
+
+/-- **route T2, `get_moving_window_changepoints`**: the function regenerated from
+    `skchange/change_detectors/moving_window.py` (with `where` regenerated from its own source) never fails
+    and returns exactly the model's changepoints `mwCpts`, for every score curve, threshold and minimum
+    detection interval -/
+theorem gen_mw_changepoints_eq_model (scores : Nat → α) (n : Nat) (thr : α) (mdi : Nat) :
+    mw_changepoints scores n thr mdi = some (mwCpts scores n thr mdi) := by
+  have hruns : ∀ r ∈ whereRuns ((List.range n).map (fun t => decide (thr < scores t))), r.1 < r.2 ∧ r.2 ≤ n := by
+    intro r hr
+    obtain ⟨h1, h2, _⟩ := (whereRuns_spec _ r.1 r.2).1 hr
+    simp only [List.length_map, List.length_range] at h2
+    exact ⟨h1, h2⟩
+  simp only [mw_changepoints, gen_where_eq_model, mwCpts]
+  simp [mw_changepoints_loop0_eq scores n thr mdi _ _ [] hruns]
+
+end mw
 
 end Skc
